@@ -1526,6 +1526,9 @@ class Normalizer:
                     return nf_div8(self.nf(e[2]))
                 return self.atom(canon(e))
             if op == "Div":
+                d = strip_casts(e[3])
+                if isinstance(d, tuple) and d[0] == "bin" and d[1] == "Shl" and is_c(strip_casts(d[2]), 1):
+                    return self.atom(canon(("bin", "Shr", e[2], d[3])))        # x / (1 << y)  ==  x >> y
                 return self.atom("DIV(%s,%s)" % (nf_show(self.nf(e[2])), nf_show(self.nf(e[3]))))
             return self.atom(canon(e))
         if k == "len":
